@@ -19,7 +19,7 @@ EXPLANATION = (
 TRUSTED = _c02.TRUSTED + ["corner lemma for + - * / over boxes (0 not in divisor); monotonicity of |x| on each side of 0"]
 ASSUMPTIONS = ["interval invariant lower <= upper (established by the constructors)", "endpoint kinds/bit lengths/relative exponents concrete per obligation; base exponent(s) symbolic in +-2^30",
                "products/quotients: small shapes with precise bit-vector multiplication"]
-BUDGET = {'quick': dict(ob_deadline_s=150, total_s=300), 'thorough': dict(ob_deadline_s=900, total_s=2400)}
+BUDGET = {'quick': dict(ob_deadline_s=150, total_s=300), 'thorough': dict(ob_deadline_s=600, total_s=1500)}
 BOUNDS = {'quick': 'endpoint mantissas 1..9 bits for + - abs neg (incl. infinite endpoints), 1..5 bits for * / square; prec 2..4; every sign pattern of the two intervals'}
 
 P = lambda bc, off: ['pos', bc, off]
